@@ -56,7 +56,7 @@ func genYcfg(r *rng.R, thorough bool) *ycfg {
 			s.time = uint32(1 + r.Intn(3))
 			s.memory = uint32(r.Pick(8, 9, 16, 64, 100, 1024))
 			s.threads = uint8(1 + r.Intn(4))
-			s.length = uint32(r.Pick(4, 16, 20, 32, 64))
+			s.length = uint32(r.Pick(4, 16, 20, 32, 64, 3100))
 		} else {
 			s.cost = uint(1 + r.Intn(6))
 			if thorough && r.Intn(20) == 0 {
